@@ -221,7 +221,9 @@ def mustBeBreaking : List String :=
    "RootTypeChanged", "RootTypeRemoved"]
 
 def breakingWhenRequired : List String :=
-  ["DirectiveArgumentAdded", "FieldArgumentAdded", "InputFieldAdded"]
+  ["DirectiveArgumentAdded", "FieldArgumentAdded", "InputFieldAdded",
+   -- `required` = the element BECOMES required because its default value was removed (repair G3)
+   "DirectiveArgumentDefaultValueChange", "FieldArgumentDefaultValueChange", "InputFieldDefaultValueChange"]
 
 def severityTableOk : Bool :=
   mustBeBreaking.all (fun c => severityOf c false == some sevBreaking && severityOf c true == some sevBreaking)
